@@ -118,6 +118,12 @@ pub fn run(ctx: &Ctx) -> i32 {
         if i % 97 == 0 {
             docs[0] = Val::Map(vec![]);
         }
+        if i % 600 == 599 {
+            // roots around the 16-bit length limit of MessagePack headers (map 32 / array 32)
+            let n = *rng.pick(&[65535usize, 65536, 70000]);
+            acc.count("huge_root_collections");
+            docs = vec![if rng.chance(1, 2) { Val::Map((0..n).map(|k| (Val::Str(format!("k{k}")), Val::Int((k % 3) as i128))).collect()) } else { Val::Seq((0..n).map(|k| Val::Int((k % 3) as i128)).collect()) }];
+        }
         cl.add_to(acc);
         acc.distinct(&docs.iter().map(|d| d.show()).collect::<Vec<_>>());
         acc.sample_every(1499, || json!({"documents": docs.iter().map(|d| ev::truncate(&d.show(), 120)).collect::<Vec<_>>()}));
@@ -128,7 +134,7 @@ pub fn run(ctx: &Ctx) -> i32 {
             src.extend_from_slice(&spell(Fmt::Json, d, &mut rng, &mut feats, true));
             src.push(b'\n');
         }
-        let scheds = [Sched::One, Sched::Fixed(*rng.pick(&[2usize, 3, 5, 4096])), Sched::Random(rng.next(), 16)];
+        let scheds = if docs[0].nodes() > 10000 { [Sched::All, Sched::Fixed(4096), Sched::Random(rng.next(), 8192)] } else { [Sched::One, Sched::Fixed(*rng.pick(&[2usize, 3, 5, 4096])), Sched::Random(rng.next(), 16)] };
         for f in ALL {
             let input: Vec<u8> = if f == Fmt::Toml {
                 // TOML holds one document, which must be representable
@@ -157,9 +163,9 @@ pub fn run(ctx: &Ctx) -> i32 {
             judge(&o.out, f, x, &scheds, acc);
         }
     });
-    let rule = format!("{} document sets (1-5 collection-rooted documents; maps get a first key from a pool of {} detection-hostile keys: empty, numeric-looking, quoted, YAML/TOML indicators, non-ASCII incl. U+0080-U+07FF) x 4 output formats (TOML: first document, TOML-representable); every output is offered to the detect hook as a slice and under 3 read schedules, and xt(None->X) is compared with xt(F->X) in slice and reader mode; distinct non-trivial = distinct document sets", n, FIRST_KEYS.len());
+    let rule = format!("{} document sets (1-5 collection-rooted documents; maps get a first key from a pool of {} detection-hostile keys: empty, numeric-looking, quoted, YAML/TOML indicators, non-ASCII incl. U+0080-U+07FF) x 4 output formats (TOML: first document, TOML-representable), every 600th set a single root map/array of 65 535..70 000 entries; every output is offered to the detect hook as a slice and under 3 read schedules, and xt(None->X) is compared with xt(F->X) in slice and reader mode; distinct non-trivial = distinct document sets", n, FIRST_KEYS.len());
     ev::finish(
-        Finish { ctx, level: "exploration", rule, assumptions: vec!["TOML exceptions decided by the harness's hand-written JSON reader and libyaml-event reader, not by xt".into(), "an empty table is written to TOML as zero bytes; that empty text must still be recognised as TOML".into()], extra: serde_json::Map::new(), exhaustive: false, min_distinct: 1000, must_reach: vec![("pipeline_equivalence_checked".into(), 1000), ("detected_toml_as_toml".into(), 100), ("detected_yaml_as_yaml".into(), 100), ("detected_msgpack_as_msgpack".into(), 100), ("detected_json_as_json".into(), 100)] },
+        Finish { ctx, level: "exploration", rule, assumptions: vec!["TOML exceptions decided by the harness's hand-written JSON reader and libyaml-event reader, not by xt".into(), "an empty table is written to TOML as zero bytes; that empty text must still be recognised as TOML".into()], extra: serde_json::Map::new(), exhaustive: false, min_distinct: 1000, must_reach: vec![("pipeline_equivalence_checked".into(), 1000), ("huge_root_collections".into(), 5), ("detected_toml_as_toml".into(), 100), ("detected_yaml_as_yaml".into(), 100), ("detected_msgpack_as_msgpack".into(), 100), ("detected_json_as_json".into(), 100)] },
         acc,
     )
 }
